@@ -2,6 +2,7 @@
 # Build the framework from files on disk only (offline).
 set -e
 HERE=$(cd "$(dirname "$0")/.." && pwd)
+for t in "$HERE"/tools/translate/*.py; do python3 "$t" >/dev/null || { echo "translator $t failed"; exit 1; }; done
 cd "$HERE/lean" && lake build 2>&1 | tail -3
 "$HERE/tools/build_pika.sh" hooks
 echo setup ok
